@@ -38,7 +38,7 @@ def _attrs(draw, fname):
 
 
 PROFILE = S.Profile(S.ident_or_dict_names(), single=("mandatory", "optional"),
-                    group=("alternative", "or", "mutex", "card"), layout="free", attrs=_attrs, ctc_max=3, ctc_depth=2)
+                    group=("alternative", "or", "mutex", "card"), layout="free", attrs=_attrs, ctc_max=3, ctc_depth=4)
 
 
 def _dec(draw):
